@@ -752,6 +752,38 @@ func isFieldLoad(v ssa.Value, fld string) bool {
 	return false
 }
 
+// helperResults: v is (a component of) the result of a call to a function of this repository;
+// the values that function returns in that position, constants (the zero results that go with
+// an error) left out. nil when v is not such a result.
+func helperResults(v ssa.Value) []ssa.Value {
+	idx := 0
+	var call *ssa.Call
+	switch x := v.(type) {
+	case *ssa.Extract:
+		call, _ = x.Tuple.(*ssa.Call)
+		idx = x.Index
+	case *ssa.Call:
+		call = x
+	}
+	if call == nil {
+		return nil
+	}
+	g := call.Call.StaticCallee()
+	if g == nil || g.Blocks == nil || !strings.HasPrefix(funcName(g), modPath) && !strings.Contains(funcName(g), modPath) {
+		return nil
+	}
+	var out []ssa.Value
+	for _, b := range g.Blocks {
+		if ret, ok := b.Instrs[len(b.Instrs)-1].(*ssa.Return); ok && idx < len(ret.Results) {
+			if _, isK := ret.Results[idx].(*ssa.Const); isK {
+				continue
+			}
+			out = append(out, ret.Results[idx])
+		}
+	}
+	return out
+}
+
 func labelWritten(v ssa.Value) string {
 	if isFieldLoad(v, "MachineCode") {
 		return "machinecode"
@@ -805,6 +837,20 @@ func labelWritten(v ssa.Value) string {
 			}
 		}
 	}
+	// the bytes a packing helper hands back
+	if rs := helperResults(v); len(rs) > 0 {
+		lbl := ""
+		for _, r := range rs {
+			l := labelWritten(r)
+			if lbl != "" && l != lbl {
+				return "other"
+			}
+			lbl = l
+		}
+		if lbl != "other" {
+			return lbl
+		}
+	}
 	return "other"
 }
 
@@ -827,6 +873,15 @@ func constOfVal(v ssa.Value) string {
 // symbolCounterOK: the value is a loop-carried counter c with c' = c + 1 on every
 // iteration and c” = c' + NumberOfAuxSymbols under the aux != nil branch, starting at 0.
 func symbolCounterOK(v ssa.Value) bool {
+	// the count a packing helper hands back
+	if rs := helperResults(v); len(rs) > 0 {
+		for _, r := range rs {
+			if !symbolCounterOK(r) {
+				return false
+			}
+		}
+		return true
+	}
 	phi, ok := v.(*ssa.Phi)
 	if !ok {
 		return false
